@@ -5,7 +5,7 @@ import re
 
 from .guards import (Cmp, CallResult, Field, check_guard, prov, op_prov, bool_condition, bool_edge_value,
                      switch_edges, marker_matches, blocks_constructing, ok_block_after)
-from .lib import (op_local, op_const, op_place, place_local, place_fields, rvalue_operands, rvalue_places,
+from .lib import (op_local, op_const, op_place, place_local, place_proj, place_fields, rvalue_operands, rvalue_places,
                   promoted_consts, last_seg, AnchorError)
 
 EXPLANATION = (
@@ -171,7 +171,7 @@ def run(ctx):
         if ("{closure" in c.path or c.name() in ("call", "call_mut", "call_once")) and any(
                 "f:" + n in toks for n in ("external", "l1_handler", "constructor")):
             dty = main.local_ty(place_local(c.dest))
-            if dty.startswith("core::result::Result<alloc::vec::Vec<("):
+            if dty.startswith("core::result::Result<alloc::vec::Vec<"):
                 hit = [n for n in ("external", "l1_handler", "constructor") if "f:" + n in toks]
                 if len(hit) == 1:
                     lists_validated[hit[0]] = c
@@ -204,8 +204,15 @@ def run(ctx):
             idx_ok = False
             for c in ace.calls():
                 if c.name() == "index" and len(c.args) == 2 and marker_matches(op_prov(ace, c.args[0], 6), "~sierra_statement_info"):
-                    pt = op_prov(ace, c.args[1], 8)
-                    if "n:statement_id" in pt and place_local(c.dest) in ace.derives_from(op_local(ops["offset"])):
+                    il = op_local(c.args[1])
+                    srcs = (ace.derives_from(il) | {il}) if il is not None else set()
+                    # the index comes out of the closure's argument (the zipped validated info) and is a statement index
+                    from_arg = any(1 < x <= ace.argc for x in srcs)
+                    is_stmt = any("StatementIdx" in (ace.local_ty(x) or "") for x in srcs) or any(
+                        isinstance(e, list) and e[0] == "f" and str(e[3]).endswith("StatementIdx")
+                        for _, _, st2 in ace.stmts() if st2[0] == "a" and place_local(st2[1]) in srcs
+                        for pl in rvalue_places(st2[2]) for e in place_proj(pl))
+                    if from_arg and is_stmt and place_local(c.dest) in ace.derives_from(op_local(ops["offset"])):
                         idx_ok = True
             ctx.ob("R19.2", "offset-index<-statement_id", idx_ok, "statement info is indexed by the validated entry statement",
                    ace.where(st[3]))
